@@ -269,6 +269,10 @@ func (m *mon) block(valsBusy bool) {
 				}
 				send(u, "execute-job "+id, &schedulertypes.MsgExecuteJob{JobID: id, Payload: pay, Metadata: world.Meta(u)})
 			}
+		case 5:
+			// factory token administration: the admin (user 0) mints, anybody else tries to
+			d := world.FactoryDenom(w.Users[0], "tka")
+			send(u, "factory-mint", world.MsgMint(u, d, sdkmath.NewInt(int64(1+r.Intn(500)))))
 		case 4:
 			if m.hostile() {
 				nu := chain.NewAccount("ln", fmt.Sprintf("c09-ln-%d-%d", c.Height, r.Intn(1000)))
